@@ -42,6 +42,9 @@ def build_cases(run, rng, nworlds, nqueries, ndocs=(3, 7), depth=2, nletters=2, 
     return cases, meta
 
 
+EXTRA_CLASSES = {}
+
+
 def _rename_op(q, old, new):
     if isinstance(q, dict):
         return dict((k, (new if (k == "op" and v == old) else _rename_op(v, old, new))) for k, v in q.items())
@@ -102,7 +105,7 @@ def report(run, pid, cases, meta, rejects, check):
         sig = {"check": check, "path": o.get("path"), "kind": o["kind"], "shape": qobs.shape(qo["q"]),
                "ops": sorted(qobs.ops_of(qo["q"])), "err": o.get("err", ""),
                "deletions": meta[ci]["deleted"] > 0, "multiseg": meta[ci]["nseg"] > 1}
-        cl = classes.get((ci, qi)) or classes.get((ci, qi, oi))
+        cl = classes.get((ci, qi)) or classes.get((ci, qi, oi)) or EXTRA_CLASSES.get((ci, qi, oi))
         if cl:
             sig["class"] = cl
         run.violation(sig, {"idx": cs["idx"], "plan": meta[ci]["plan"], "q": qo["q"], "obs": o, "expected": exp})
